@@ -7,6 +7,7 @@ package h1pipe
 import (
 	"context"
 	"fmt"
+	"os"
 	"math/rand/v2"
 	"sort"
 	"strconv"
@@ -36,6 +37,10 @@ func init() {
 // QuietLogger discards everything; Fatal panics instead of exiting so that the
 // simulation records "process died".
 func QuietLogger() *zap.Logger {
+	if os.Getenv("VERIF_DEBUG") != "" {
+		enc := zapcore.NewConsoleEncoder(zap.NewDevelopmentEncoderConfig())
+		return zap.New(zapcore.NewCore(enc, zapcore.AddSync(os.Stdout), zapcore.WarnLevel), zap.WithFatalHook(zapcore.WriteThenPanic))
+	}
 	return zap.New(zapcore.NewNopCore(), zap.WithFatalHook(zapcore.WriteThenPanic))
 }
 
